@@ -6,6 +6,7 @@ package rt
 import (
 	"encoding/json"
 	"fmt"
+	"gopkg.in/yaml.v3"
 	"go/ast"
 	"go/parser"
 	"go/token"
@@ -176,7 +177,14 @@ func seedOf() int64 {
 	return 1
 }
 
-func enumerateOne(module string, extraCfg func(string) string, sc *work.Scratch, devs []string, tier string) ([]*Unit, *tlc.Result, error) {
+func enumerateOne(module string, extraCfg func(string) string, sc *work.Scratch, allDevs []string, tier string) ([]*Unit, *tlc.Result, error) {
+	// the MC modules model the JSON path: deviations of the YAML path only ("Yaml...") do not apply
+	var devs []string
+	for _, d := range allDevs {
+		if !strings.HasPrefix(d, "Yaml") {
+			devs = append(devs, d)
+		}
+	}
 	f := &Family{Module: module}
 	extra := ""
 	if extraCfg != nil {
@@ -438,6 +446,46 @@ func Execute(f *Family, sc *work.Scratch, tag string, units []*Unit, pack int) (
 
 func tagGlob(tag string) string { return "..." }
 
+// YamlCalls: each document is decoded as JSON, as YAML given the JSON text itself (flow style) and as
+// YAML in block style (rendered by yaml.v3 from the generic value).
+func YamlCalls(u *Unit, i int, text string) []work.Call {
+	block := text
+	dec := json.NewDecoder(strings.NewReader(text))
+	dec.UseNumber()
+	var v any
+	if err := dec.Decode(&v); err == nil {
+		if b, err := yaml.Marshal(plainNumbers(v)); err == nil {
+			block = string(b)
+		}
+	}
+	return []work.Call{{Text: text, Fmt: "json"}, {Text: text, Fmt: "yaml"}, {Text: block, Fmt: "yaml"}}
+}
+
+func plainNumbers(v any) any {
+	switch x := v.(type) {
+	case json.Number:
+		if n, err := x.Int64(); err == nil {
+			return n
+		}
+		if n, err := strconv.ParseUint(x.String(), 10, 64); err == nil {
+			return n
+		}
+		f, _ := x.Float64()
+		return f
+	case []any:
+		for i := range x {
+			x[i] = plainNumbers(x[i])
+		}
+		return x
+	case map[string]any:
+		for k := range x {
+			x[k] = plainNumbers(x[k])
+		}
+		return x
+	}
+	return v
+}
+
 func docText(d any) (string, error) { return abs.Doc(d) }
 
 // stringConsts returns the values of all `const X T = "..."` declarations of a generated file.
@@ -487,7 +535,7 @@ func Observation(e *Exec, judgeBuild bool) (*obsEvent, error) {
 	if judgeBuild && e.GenErr == "" && !e.Built && e.BuildErr != "" {
 		return &obsEvent{Unit: e.Unit.Raw, Built: false, Res: []obsRes{}}, nil
 	}
-	if !e.Built || e.Out == nil || e.Out.Miss || len(e.Out.Res) != len(e.Texts) {
+	if !e.Built || e.Out == nil || e.Out.Miss || (len(e.Out.Res) != len(e.Texts) && len(e.Out.Res) != 3*len(e.Texts)) {
 		return nil, nil
 	}
 	ev := &obsEvent{Unit: e.Unit.Raw, Built: true}
